@@ -1,10 +1,22 @@
 import ElfioVerif.Driver.Common
 import ElfioVerif.Driver.C07
+import ElfioVerif.Driver.Load
+import ElfioVerif.Driver.C14
+import ElfioVerif.Driver.C08
+import ElfioVerif.Driver.C13
+import ElfioVerif.Driver.C11
+import ElfioVerif.Driver.C12
 import ElfioVerif.Driver.C10
 open ElfioVerif.Drv
 
 def main (args : List String) : IO UInt32 := do
   match args with
   | ["c07"] => mainLoop C07.runCase; return 0
+  | ["load"] => mainLoop Load.runCase; return 0
+  | ["c14"] => mainLoop C14.runCase; return 0
+  | ["c08"] => mainLoop C08.runCase; return 0
+  | ["c13"] => mainLoop C13.runCase; return 0
+  | ["c11"] => mainLoop C11.runCase; return 0
+  | ["c12"] => mainLoop C12.runCase; return 0
   | ["c10"] => mainLoop C10.runCase; return 0
   | _ => IO.eprintln "usage: driver <family>"; return 2
